@@ -609,6 +609,16 @@ class BCEngine(Engine):
         from afkak.common import ClientError
 
         w = self.world
+        # an exception escaping into the transport / reactor (a reactor logs it and, for dataReceived, drops the connection): the broker
+        # client's bookkeeping for that event was cut short
+        excs = w.exceptions[getattr(self, "seen_exceptions", 0):]
+        self.seen_exceptions = len(w.exceptions)
+        for where, what in excs:
+            if where == "dataReceived":
+                self.note("C06.completes-with-own-response", "C06.exception-escaped/dataReceived", "step %r: handling received bytes raised %s" % (step, what[:200]))
+            else:
+                self.note("C10.reconnects", "C10.exception-escaped/%s" % where, "step %r: %s raised %s" % (step, where, what[:200]))
+                self.note("C06.failure-kinds", "C06.exception-escaped/%s" % where, "step %r: %s raised %s" % (step, where, what[:200]))
         if self.close_error is not None:
             e, self.close_error = self.close_error, None
             self._note_close("C20.pending-fail-at-once", "C20.broker-close-raised/%s" % type(e).__name__, "C10.close", "C10.close-raised/%s" % type(e).__name__, "step %r: close() raised %r" % (step, e))
